@@ -56,7 +56,10 @@ KEYS = ["a", "b", "a2", "A", "c@", "ü", "oauth_x", "z z", "k%20", "a", "k\n", "
 URIS = ["https://api.example.com/r", "HTTPS://API.Example.COM/r", "https://api.example.com:443/r", "https://api.example.com:8443/r",
         "http://api.example.com:80/r", "http://api.example.com:443/r", "https://api.example.com", "https://api.example.com/a%20b/c;p=1",
         "https://api.example.com/r?x=1&y=a%20b&x=0", "https://api.example.com/r?b5=%3D%253D&a3=a&c%40=&a2=r%20b", "https://u:p@api.example.com/r",
-        "https://api.example.com/r#frag"]
+        "https://api.example.com/r#frag",
+        # hosts whose last characters are digits of the default port, with and without the port written out; other ports that end alike
+        "https://10.0.0.3:443/r", "https://10.0.0.34:443/r", "https://api4:443/r", "https://api443/r", "https://10.0.0.3/r", "https://host:4443/r", "https://host:44/r",
+        "http://10.0.0.80:80/r", "http://h8:80/r", "http://h80/r", "http://host:8080/r", "https://[::3]:443/r", "https://host.:443/r", "https://host:0443/r", "https://host:/r"]
 METHODS = ["GET", "post", "Put", "DELETE"]
 
 
@@ -80,7 +83,7 @@ def run_base_string(ctx):
     for i in range(n):
         method = rng.choice(METHODS)
         uri = rng.choice(URIS)
-        host = rng.choice([None, None, None, "Other.example", "api.example.com:443", "api.example.com:8080"])
+        host = rng.choice([None, None, None, "Other.example", "api.example.com:443", "api.example.com:8080", "backend3:443", "10.0.0.4:443", "10.0.0.80:80", "b3", "b3:4433"])
         params = [(rng.choice(KEYS), rng.choice(TEXT)) for _ in range(rng.choice([0, 1, 2, 3, 5]))]
         if rng.random() < 0.7:
             params += [("oauth_consumer_key", rng.choice(["ck", "c k", "c%k"])), ("oauth_nonce", "n%d" % i), ("oauth_timestamp", "1700000000"),
